@@ -46,20 +46,31 @@ Record scase := {
   sc_outs : list (option out);          (* what the code returned, per item *)
   sc_image : list (string * sval);      (* final database dump, decoded by key kind *)
   sc_shapes : list (list wshape);       (* the recorded atomic writes, in order *)
-  sc_faults : list (list wshape)        (* the write attempts the fault-injecting datastore refused, in order *)
+  sc_faults : list (list wshape);       (* the write attempts the fault-injecting datastore refused, in order *)
+  sc_traw : list N                      (* the raw bytes of the /t record in the final database ([] = no record) *)
 }.
 
 Definition image_agrees (m : img) (dump : list (string * sval)) : bool :=
   forallb (fun e => match kv_get m (fst e) with Some v => sval_eqb v (snd e) | None => false end) dump
   && Nat.eqb (List.length (kv_keys m)) (List.length dump).
 
-(* 1 = results differ, 2 = final image differs, 3 = write log differs, 4 = the refused write attempts differ *)
+(* the height record the real store left behind is, byte for byte, the encoding of the model's height *)
+Definition traw_agrees (m : img) (raw : list N) : bool :=
+  match kv_get m height_key with
+  | None => match raw with [] => true | _ => false end
+  | Some (VHeight n) => list_eqb N.eqb (enc_height n) raw && match dec_height raw with Some n' => (n' =? n)%N | None => false end
+  | Some _ => false
+  end.
+
+(* 1 = results differ, 2 = final image differs, 3 = write log differs, 4 = the refused write attempts differ,
+   5 = the bytes of the height record differ *)
 Definition check_case (c : scase) : list N :=
   let '(m, outs) := run [] (sc_hist c) in
   (if list_eqb oout_eqb outs (sc_outs c) then [] else [1%N]) ++
   (if image_agrees m (sc_image c) then [] else [2%N]) ++
   (if list_eqb (list_eqb wshape_eqb) (shapes [] (sc_hist c)) (sc_shapes c) then [] else [3%N]) ++
-  (if list_eqb (list_eqb wshape_eqb) (fault_shapes [] (sc_hist c)) (sc_faults c) then [] else [4%N]).
+  (if list_eqb (list_eqb wshape_eqb) (fault_shapes [] (sc_hist c)) (sc_faults c) then [] else [4%N]) ++
+  (if traw_agrees m (sc_traw c) then [] else [5%N]).
 
 Fixpoint mismatches_from (i : N) (cs : list scase) : list (N * list N) :=
   match cs with
